@@ -723,6 +723,14 @@ func genC20(w *bufio.Writer, tier string, rng *rand.Rand) {
 			if i == 0 && rng.Intn(2) == 0 { // already ascending, with ties
 				sort.Float64s(xs)
 			}
+			if i == 1 && rng.Intn(2) == 0 { // ascending except for the last (or the first) value
+				sort.Float64s(xs)
+				if rng.Intn(2) == 0 {
+					xs[len(xs)-1] = xs[0] - 0.5
+				} else {
+					xs[0] = xs[len(xs)-1] + 0.5
+				}
+			}
 			add("f", fmt.Sprintf("[f,%s]", fmtFs(xs)))
 		}
 		{ // positive weights: ordinary, huge or tiny
@@ -758,6 +766,18 @@ func genC20(w *bufio.Writer, tier string, rng *rand.Rand) {
 		}
 		add("g", fmt.Sprintf("[g,%s]", fmtIntss(g)))
 		add("g", fmt.Sprintf("[g,%s]", fmtIntss(randGraph(rng, n, 1.5, true, true))))
+		if rng.Intn(4) == 0 { // a graph with more nodes than any fixed-size scratch structure holds by default
+			big := 1025 + rng.Intn(1200)
+			bg := make([][]int, big)
+			for v := 0; v+1 < big; v++ {
+				bg[v] = []int{v + 1}
+				if rng.Intn(50) == 0 {
+					bg[v] = append(bg[v], rng.Intn(big))
+				}
+			}
+			bg[big-1] = []int{0}
+			add("g", fmt.Sprintf("[g,%s]", fmtIntss(bg)))
+		}
 		bw := []float64{0, 0.5, 1.25}[rng.Intn(3)]
 		bmin, bmax := 0.0, 0.0
 		if rng.Intn(2) == 0 {
